@@ -54,7 +54,7 @@ def confirm(src, seed_id, prop):
             return 1
         rc1, out1 = run_demo(wt, demo)
         mut = suite_summary(wt)
-        ok = rc0 == 0 and rc1 != 0 and "1008 passed" in base and "1008 passed" in mut and "failed" not in mut
+        ok = rc0 == 0 and rc1 != 0 and "1008 passed" in base and "1008 passed" in mut and " failed" not in mut
         print(f"{seed_id}: demo clean rc={rc0}, demo with change rc={rc1}; suite clean: {base.strip()}; with change: {mut.strip()} -> {'CONFIRMED' if ok else 'REJECTED'}")
         if not ok:
             print(out0[-300:], "\n---\n", out1[-300:])
